@@ -638,13 +638,99 @@ func clientBodySoFar(stream []byte) []byte {
 	}
 }
 
+// ---- two connections at once, one client not reading -------------------------------------------------------------
+
+// twoConnections: client A stops reading (4 KiB socket buffer) while a large response is on its way to it,
+// so the proxy is blocked in the middle of writing it; meanwhile client B performs a complete exchange with
+// other content; then A reads on. Both clients must hold exactly their own response. (Whatever the proxy
+// keeps per response - copy buffers, flushers, gzip readers - must not be shared between connections.)
+func twoConnections(x *explore.X) {
+	handler := x.ChooseFree("config", 2) == 1
+	fa := []string{"cl", "chunked", "eof"}[x.ChooseFree("framing-a", 3)]
+	fb := []string{"cl", "chunked"}[x.ChooseFree("framing-b", 2)]
+	gzA := x.ChooseFree("gzip-a", 2) == 1
+	gzB := x.ChooseFree("gzip-b", 2) == 1
+	sizeB := []int{40000, 5}[x.ChooseFree("size-b", 2)]
+	w, err := world.Start(world.Options{HTTPHandler: handler})
+	if err != nil {
+		x.Failf("harness/start", "%v", err)
+		return
+	}
+	nh, _ := w.Hop(originHost+":80", nil)
+	mk := func(framing string, gzip bool, size int, salt byte) exchange {
+		return exchange{method: "GET", version: "HTTP/1.1", status: 200, reason: "OK", proto: "HTTP/1.1", framing: framing, size: size, gzip: gzip, override: h1x.Pattern(size, salt)}
+	}
+	ea, eb := mk(fa, gzA, 70000, 11), mk(fb, gzB, sizeB, 17)
+	clA, _ := w.Client()
+	clB, _ := w.Client()
+	send := func(cl *world.Peer, e exchange) world.Stream {
+		cl.Send(e.request(true))
+		msgs, conns, problem := nh.Next()
+		if len(msgs) != 1 {
+			x.Failf("next-hop-count", "origin received %d requests (%s)", len(msgs), problem)
+			return nil
+		}
+		return nh.Conns[conns[0]]
+	}
+	reply := func(oc world.Stream, e exchange) {
+		head, body := e.responseWire()
+		oc.Send(append(append([]byte{}, head...), body...))
+		if e.framing == "eof" {
+			oc.Close()
+		}
+	}
+	check := func(who string, cl *world.Peer, e exchange) bool {
+		rs := httpwire.ParseResponses(cl.Recv(), []string{"GET"}, cl.EOF())
+		if rs.State == "syntax" || len(rs.Msgs) != 1 || len(rs.Rest) != 0 {
+			x.Failf("two-connections/message", "client %s (framing %s gzip=%v, other connection: framing-a=%s gzip-a=%v framing-b=%s gzip-b=%v): holds %d complete responses, state %q err %q, rest %d bytes", who, e.framing, e.gzip, fa, gzA, fb, gzB, len(rs.Msgs), rs.State, rs.Err, len(rs.Rest))
+			return false
+		}
+		expectResponse(x, e, rs.Msgs[0], handler)
+		return !x.Failed()
+	}
+	oa := send(clA, ea)
+	if oa == nil {
+		return
+	}
+	clA.Recv()
+	clA.Hold = true
+	clA.C.SetLimit(4096)
+	reply(oa, ea)
+	ob := send(clB, eb)
+	if ob == nil {
+		return
+	}
+	reply(ob, eb)
+	x.Check()
+	okB := check("B (while A is stalled)", clB, eb)
+	clA.Hold = false
+	clA.C.SetLimit(0)
+	clA.Recv()
+	world.Settle(0)
+	if okB {
+		check("A (after it resumed)", clA, ea)
+	}
+	x.Outcome(fmt.Sprintf("handler=%v a=%s/%v b=%s/%v/%d", handler, fa, gzA, fb, gzB, sizeB))
+	clA.Close()
+	clB.Close()
+	if err := w.Stop(); err != nil {
+		x.Failf("shutdown", "%v", err)
+	}
+	nh.Shutdown()
+	world.Settle(5 * time.Second)
+	if l := world.Leaks(); l != "" {
+		x.Failf("goroutine-leak", "%s", l)
+	}
+}
+
 func TestC02(t *testing.T) {
 	s := explore.NewSuite(t, "C02", "exploration",
-		"sequences of 1-3 exchanges on one client connection; each exchange = request method(3) x client version(2) x client Connection option(3) x origin status(7) x header shape(8) x framing(CL, chunked, EOF-delimited 1.1, EOF-delimited 1.0) x size(10) x chunking/trailers(5) x content(plain, gzip solicited by the proxy, gzip solicited by the client, event stream) x origin write segmentation(8) x configuration(TCP server, TestingHTTPHandler, MITM) x configured --response-header rule set(6: none, append, remove, prefix removal, rename, set-empty+remove); all combinations with at most D deviations (D=3 quick, 4 thorough) from the default sequence are executed and the client's byte stream is parsed by the independent parser and compared message by message with expectResponse; plus the full product of the incremental-delivery scenario (stream kind x event size x events x client version x configuration); non-trivial = at least one response was compared")
+		"sequences of 1-3 exchanges on one client connection; each exchange = request method(3) x client version(2) x client Connection option(3) x origin status(7) x header shape(8) x framing(CL, chunked, EOF-delimited 1.1, EOF-delimited 1.0) x size(10) x chunking/trailers(5) x content(plain, gzip solicited by the proxy, gzip solicited by the client, event stream) x origin write segmentation(8) x configuration(TCP server, TestingHTTPHandler, MITM) x configured --response-header rule set(6: none, append, remove, prefix removal, rename, set-empty+remove); all combinations with at most D deviations (D=3 quick, 4 thorough) from the default sequence are executed and the client's byte stream is parsed by the independent parser and compared message by message with expectResponse; plus (two-connections) the full product framing x gzip x size x mode of two connections of which one client stops reading in the middle of a 70000-byte response while the other performs a complete exchange, both compared exactly; plus the full product of the incremental-delivery scenario (stream kind x event size x events x client version x configuration); non-trivial = at least one response was compared")
 	s.Assume = []string{"simnet models TCP", "httpwire is trusted", "compress/gzip is used to build and check gzip bodies"}
 	s.Add(explore.Scenario{Name: "exchanges", Remote: true, MaxDev: map[string]int{"quick": 3, "thorough": 4},
 		Run: func(x *explore.X) { world.Run(t, x, func() { scenario(x, false) }) }})
 	s.Add(explore.Scenario{Name: "incremental", Remote: true, MaxDev: map[string]int{"quick": 1, "thorough": 1},
 		Run: func(x *explore.X) { world.Run(t, x, func() { scenario(x, true) }) }})
+	s.Add(explore.Scenario{Name: "two-connections", Remote: true, Run: func(x *explore.X) { world.Run(t, x, func() { twoConnections(x) }) }})
 	s.Main()
 }
